@@ -54,6 +54,23 @@ static void unpaired_length_tags(const sm::Schema& s, const mg::NodeList& nl, st
 	}
 }
 
+// C11, explicit-precision variant: every float field of the message (header, body, trailer, group elements) gets a value with
+// five decimals and precision 5 through the typed interface; returns how many fields were changed
+static int set_float_precision(const sm::Schema& s, MessageBase *mb)
+{
+	int k = 0;
+	for (auto& pp : mb->get_positions()) {
+		BaseField *bf = pp.second; const int tag = bf->get_tag();
+		auto f = s.fields.find(tag);
+		if (f != s.fields.end() && f->second.vclass() == sm::V_FLOAT && !mb->find_group((unsigned short)tag)) {
+			Field<fp_type, 0> *ff = reinterpret_cast<Field<fp_type, 0> *>(bf);
+			ff->set(100.0 + k + 0.12345); ff->set_precision(5); ++k;
+		}
+		if (GroupBase *gb = mb->find_group((unsigned short)tag)) for (size_t i = 0; i < gb->size(); ++i) k += set_float_precision(s, gb->get_element(i));
+	}
+	return k;
+}
+
 int main(int argc, char **argv)
 {
 	vh::Run R(argc, argv);
@@ -67,12 +84,18 @@ int main(int argc, char **argv)
 	std::vector<int> nelems; { std::string ne = R.args.get("nelems", "1,2,0"); std::istringstream is(ne); std::string x; while (std::getline(is, x, ',')) nelems.push_back(atoi(x.c_str())); }
 	const int permmax = (int)R.args.num("perm", 0);
 
-	auto run_case = [&](int mi, int shape, int vi, int nelem, int order, const std::vector<int> *perm) {
+	auto run_case = [&](int mi, int shape, int vi, int nelem, int order, const std::vector<int> *perm, bool fprec = false, int textlen = 0) {
 		const sm::MsgDef& md = S.msgs[mi];
 		mg::Tree t = L.make(md, shape, vi, nelem);
 		char idb[128]; snprintf(idb, sizeof idb, "%s:%d:%d:%d:%d:%d", schema.c_str(), mi, shape, vi, nelem, order);
 		std::string id = idb;
 		if (perm) { id += ":p"; for (int x : *perm) id += std::to_string(x) + "."; }
+		if (fprec) id += ":f";
+		if (textlen) {	// length sweep: the free-text field Text(58) of the body is textlen characters long
+			id += ":L" + std::to_string(textlen);
+			bool found = false; for (auto& n : t.body) if (n.tag == 58) { n.text.assign((size_t)textlen, 'x'); found = true; }
+			if (!found) return;
+		}
 		std::set<std::string> tg; tree_tags(S, t.header, tg, 0); tree_tags(S, t.body, tg, 0); tree_tags(S, t.trailer, tg, 0);
 		unpaired_length_tags(S, t.header, tg); unpaired_length_tags(S, t.body, tg); unpaired_length_tags(S, t.trailer, tg);
 		const std::string ref = mg::serialize(S, t);
@@ -90,6 +113,11 @@ int main(int argc, char **argv)
 			} else m.reset(mg::build(ctx, t, order));
 		}
 		catch (std::exception& e) { R.outcome("build-throws"); R.viol("constructible", "build-throws:" + exname(e), tags, id, e.what(), "message built through the metadata API", md.name); return; }
+		if (fprec) {	// floats with explicit precision (set through the typed interface, not part of the abstract tree)
+			int k = set_float_precision(S, m->Header()) + set_float_precision(S, m.get()) + set_float_precision(S, m->Trailer());
+			if (!k) { --R.evaluations; return; }
+			tags.push_back("float_explicit_precision");
+		}
 		std::string wire;
 		try { wire = encode_big(m.get()); }
 		catch (std::exception& e) { R.outcome("encode-throws"); R.viol("encodes", "encode-throws:" + exname(e), tags, id, e.what(), vh::show(ref), md.name); return; }
@@ -119,6 +147,7 @@ int main(int argc, char **argv)
 			return;
 		}
 		if (prop == "C11") {
+			if (fprec && wire.find(".12345") == std::string::npos) { R.viol("encodes", "explicit-precision-not-rendered", tags, id, vh::show(wire).substr(0, 300), "float fields rendered with five decimals", md.name); return; }
 			// clone
 			try {
 				std::unique_ptr<Message> c(m->clone());
@@ -151,7 +180,9 @@ int main(int argc, char **argv)
 		char sc[32]; int mi, shape, vi, nelem, order; char rest[512] = "";
 		sscanf(R.single_case.c_str(), "%31[^:]:%d:%d:%d:%d:%d:p%511s", sc, &mi, &shape, &vi, &nelem, &order, rest);
 		std::vector<int> perm; if (rest[0]) { std::istringstream is(rest); std::string x; while (std::getline(is, x, '.')) if (!x.empty()) perm.push_back(atoi(x.c_str())); }
-		run_case(mi, shape, vi, nelem, order, perm.empty() ? nullptr : &perm);
+		const bool fp = R.single_case.size() > 2 && R.single_case.compare(R.single_case.size() - 2, 2, ":f") == 0;
+		int tl = 0; { size_t lp = R.single_case.rfind(":L"); if (lp != std::string::npos) tl = atoi(R.single_case.c_str() + lp + 2); }
+		run_case(mi, shape, vi, nelem, order, perm.empty() ? nullptr : &perm, fp, tl);
 		R.finish(); return R.violations ? 1 : 0;
 	}
 
@@ -166,6 +197,7 @@ int main(int argc, char **argv)
 						// nelem only matters when a group is present: skip duplicates
 						if (nelem != nelems[0]) { mg::Tree t = L.make(S.msgs[mi], shape, vi, nelem); if (!mg::has_group(t.body) && !mg::has_group(t.header) && nelem != 0) continue; }
 						run_case(mi, shape, vi, nelem, order, nullptr);
+						if (prop == "C11" && vi == 0 && order == 0) run_case(mi, shape, vi, nelem, order, nullptr, true);
 						if (id == 0 || (mi == 4 && shape == 1 && vi == 1 && order == 0)) R.sample(R.single_case.empty() ? std::string(schema) + ":" + std::to_string(mi) + ":" + std::to_string(shape) + ":" + std::to_string(vi) + ":" + std::to_string(nelem) + ":" + std::to_string(order) : "",
 							S.msgs[mi].name + " " + vh::show(mg::serialize(S, L.make(S.msgs[mi], shape, vi, nelem))).substr(0, 400));
 					}
@@ -180,6 +212,13 @@ int main(int argc, char **argv)
 				do { run_case(mi, shape, 1, 1, 0, &perm); } while (std::next_permutation(perm.begin(), perm.end()) && !R.out_of_time());
 			}
 		}
+	}
+	// length sweep (C01, C02): the "all members" shape of NewOrderSingle with Text(58) of every length 1..lensweep, so that the
+	// encoded body takes every length across the 1-, 2-, 3- and 4-digit BodyLength thresholds
+	const int lensweep = (int)R.args.num("lensweep", 0);
+	if (lensweep > 0 && prop != "C11") {
+		int mi = -1; for (int i = 0; i < (int)S.msgs.size(); ++i) if (S.msgs[i].msgtype == "D") mi = i;
+		for (int tl = 1; mi >= 0 && tl <= lensweep && !R.out_of_time(); ++tl, ++id) { if (!R.mine(id)) continue; run_case(mi, 1, 0, 1, 0, nullptr, false, tl); }
 	}
 	R.finish(true);
 	return 0;
